@@ -199,8 +199,48 @@ func checkC09(c *run.Ctx) {
 			c.Sample(map[string]any{"document": clip(rd.Text, 1200), "json": clip(string(jb), 1200)})
 		}
 	})
+	// Nesting depth: the normal form sits one level deeper than the legacy spellings (a bare step list becomes
+	// `steps`, a bare-string plugin a one-entry object, a cache path a mapping), so whatever depth the first parse
+	// accepts, its own output has to be accepted again - at every depth, not only at the shallow ones.
+	c.Phase("depth", func() {
+		maxDepth := c.N(300, 1500)
+		c.Parallel("depth", maxDepth, func(i int, r *rand.Rand) {
+			depth := i + 1
+			var v *doc.Node = doc.S("leaf")
+			for k := 0; k < depth; k++ {
+				if (k+i)%3 == 0 {
+					v = doc.M(doc.P("k", v))
+				} else {
+					v = doc.L(v)
+				}
+			}
+			step := doc.M(doc.P("command", doc.S("c")), doc.P("deep", v))
+			for variant, root := range []*doc.Node{
+				doc.L(step), // legacy: the pipeline is a bare list of steps
+				doc.M(doc.P("steps", doc.L(step))),
+				doc.L(doc.M(doc.P("command", doc.S("c")), doc.P("plugins", doc.L(doc.S("docker#v1"), doc.M(doc.P("p#v1", doc.M(doc.P("deep", v)))))))),
+				doc.M(doc.P("steps", doc.L(doc.M(doc.P("group", doc.S("g")), doc.P("steps", doc.L(step)))))),
+			} {
+				text := string(doc.ToJSON(root))
+				id := run.CaseID("depth", i)
+				if _, err := parseText(text); err != nil && !warning.Is(err) {
+					c.Count("depth_documents_refused_at_first_parse", 1) // refusing a deep document outright is not a fixpoint matter
+					continue
+				}
+				c.Eval(1)
+				for _, leg := range []string{"json", "yaml"} {
+					if fails, what := c09Roundtrip(text, leg); fails {
+						c.Violation(id, map[string]any{"what": fmt.Sprintf("a document nested %d levels deep (variant %d) is accepted, but its own %s marshalling is not a fixpoint: %s", depth, variant, leg, what), "depth": depth})
+						return
+					}
+				}
+				c.Count("depth_documents_roundtripped", 1)
+				c.Max("max_depth_roundtripped", int64(depth))
+			}
+		})
+	})
 	c.Finish("exploration",
-		"grammar-generated pipeline documents as in C03 (tricky strings in values and keys, all shorthands, big Go maps, aliases/merges) are parsed; the JSON and the YAML marshalling are re-parsed and the object models compared structurally (dynamic step types, fields, ordered maps in order) through a reflective converter that is independent of the marshalling code; every command step goes through CommandStep.UnmarshalJSON(json.Marshal(step)) and every plugin list through Plugins.UnmarshalJSON; each pipeline is marshalled 6-10 times per format and the bytes compared. distinct_nontrivial counts distinct feature vectors",
+		"a depth sweep (documents nested 1-300 / 1-1500 levels below a step, in the legacy bare-list form, the mapping form, inside a plugin config next to a bare-string plugin, and inside a group) checks that whatever the first parse accepts, its own output is accepted again and equal; grammar-generated pipeline documents as in C03 (tricky strings in values and keys, all shorthands, big Go maps, aliases/merges) are parsed; the JSON and the YAML marshalling are re-parsed and the object models compared structurally (dynamic step types, fields, ordered maps in order) through a reflective converter that is independent of the marshalling code; every command step goes through CommandStep.UnmarshalJSON(json.Marshal(step)) and every plugin list through Plugins.UnmarshalJSON; each pipeline is marshalled 6-10 times per format and the bytes compared. distinct_nontrivial counts distinct feature vectors",
 		nil,
 		[]string{"equivalences: numbers by value, timestamp = its RFC 3339 string, typed container fields nil = empty, empty plugin config = null", "YAML leg skipped for data with multi-line strings that begin with whitespace", "excluded input classes: K1 falsy skip, K2 empty key/label next to an alias, K3 non-finite floats, K4 the key `<<`"})
 	_ = fmt.Sprint
